@@ -230,6 +230,8 @@ class RDDM(BaseSPCError):
         """Reset method."""
         super().reset()
         self.rddm_drift = False
+        self.num_warnings = 0
+        self.predictions.clear()
 
     def _update(  # pylint: disable=too-many-branches
         self,
